@@ -90,7 +90,7 @@ def supplied_values(cfg, dress, fseed):
     if dress == 'int':
         vals = [float(v) for v in exo['vals']]
         v = float(exo['v'])
-        ics = {ic['name']: float(ic['val']) for ic in cfg['ics']}
+        stated = [float(ic['val']) for ic in cfg['ics']]
     else:
         v = _rand_float(rng)
         vals = [v] * n if form == 'strexpr' else [_rand_float(rng) for _ in range(n)]
@@ -98,15 +98,19 @@ def supplied_values(cfg, dress, fseed):
             # integer entries inside a list stay what the user wrote
             i = rng.randrange(n)
             vals[i] = rng.randint(-9, 9)
-        ics = {}
+        stated = []
         for ic in cfg['ics']:
             if ic['val'] == 0:
-                ics[ic['name']] = rng.choice([0.0, -0.0])        # a stated zero stays a zero in float dress
+                stated.append(rng.choice([0.0, -0.0]))        # a stated zero stays a zero in float dress
                 continue
-            ics[ic['name']] = float(rng.randint(-10 ** 6, 10 ** 6)) if cfg['icform'] == 'int' else _rand_float(rng)
+            stated.append(float(rng.randint(-10 ** 6, 10 ** 6)) if cfg['icform'] == 'int' else _rand_float(rng))
     if form == 'intscalar':
         v = int(exo['v']) if dress == 'int' else rng.randint(-99, 99)
-    return {'vals': vals, 'v': v, 'ics': ics}
+    # 'stated': one value per statement, in order; 'ics': the value in force per variable = its LAST statement
+    ics = {}
+    for ic, x in zip(cfg['ics'], stated):
+        ics[ic['name']] = x
+    return {'vals': vals, 'v': v, 'ics': ics, 'stated': stated}
 
 
 def expected_path(cfg, sup):
@@ -157,10 +161,11 @@ def exo_text(cfg, sup):
     return 'foo'
 
 
-def ic_text(cfg, sup, name):
+def ic_text(cfg, sup, i):
+    """text of the i-th stated initial condition"""
     if cfg['icform'] == 'undef':
         return 'foo'
-    x = sup['ics'][name]
+    x = sup['stated'][i]
     if cfg['icform'] == 'int':
         return str(int(x))
     return num(x)
@@ -176,8 +181,8 @@ def render_block(cfg, sup):
     for v in cfg['vars']:
         if v['cls'] != 'exo':
             lines.append('%s = %s' % (v['name'], rhs_text(v)))
-    for ic in cfg['ics']:
-        lines.append('%s(0) = %s' % (ic['name'], ic_text(cfg, sup, ic['name'])))
+    for i, ic in enumerate(cfg['ics']):
+        lines.append('%s(0) = %s' % (ic['name'], ic_text(cfg, sup, i)))
     lines.append('# Exogenous Variables')
     for v in cfg['vars']:
         if v['cls'] == 'exo':
@@ -394,11 +399,11 @@ def execute_model(cfg, dress, fseed):
             else:
                 mod.AddExogenous('S', v['name'], val)
                 calls.append('Model.AddExogenous(S, %s, %r)' % (v['name'], val))
-        for ic in cfg['ics']:
+        for i, ic in enumerate(cfg['ics']):
             if cfg['icform'] == 'float':
-                val = sup['ics'][ic['name']]
+                val = sup['stated'][i]
             else:
-                val = ic_text(cfg, sup, ic['name'])       # a string: '12' or 'foo'
+                val = ic_text(cfg, sup, i)       # a string: '12' or 'foo'
             if rng.random() < 0.5:
                 sec.AddInitialCondition(ic['name'], val)
                 calls.append('Sector.AddInitialCondition(%s, %r)' % (ic['name'], val))
@@ -569,6 +574,9 @@ def signature(clause, case, events, rnd):
     if clause == 'C10_ICVerbatim':
         off = [o['name'] for o in obs if not o['icv']]
         vals = {ic['name']: ic['val'] for ic in cfg['ics']}
+        names = [ic['name'] for ic in cfg['ics']]
+        if off and all(names.count(n) > 1 for n in off):
+            head += 'stated-twice:'
         if off and all(vals.get(n) == 0 for n in off):
             head += 'stated-zero:'
         if any(n.endswith('0') for n in off):
@@ -655,7 +663,7 @@ def run(rep):
     cfgs = ['MC_Horizon_quick.cfg'] if rep.tier == 'quick' else ['MC_Horizon_quick.cfg', 'MC_Horizon_thorough.cfg']
     rep.rule = ('configurations = all initial states of the bounded Horizon instance (5 blueprints, three of them also under variable names ending in 0 / holding a 0 / differing by a trailing 0 (h1, h10) and under names that differ from the special names of the parser only in letter case (T, T_MINUS_1, maxtime) x exogenous form '
                 'and length x initial condition on none / each non-exogenous variable / all / the time axis t and t_minus_1 with and without an equation for t, as float, int or '
-                'undefined name, with the stated value non-zero or zero x horizon x MaxTime in block / on solver before parsing / both with different values (solver wins, 0 included) / absent / in block and a larger or smaller value assigned to the solver after EquationSolver(block) or ParseString(block) x reduction on/off; plus histories of two blocks parsed one after the other into ONE solver object - first round with the horizon only in its block (ParseString or constructor, solved or only parsed) or written to the solver (before or late), second round with its own MaxTime line / none / solver written again / the kept solver value against another line), each solved by '
+                'undefined name, with the stated value non-zero or zero, stated once or twice with different values (the last one is in force) x horizon x MaxTime in block / on solver before parsing / both with different values (solver wins, 0 included) / absent / in block and a larger or smaller value assigned to the solver after EquationSolver(block) or ParseString(block) x reduction on/off; plus histories of two blocks parsed one after the other into ONE solver object - first round with the horizon only in its block (ParseString or constructor, solved or only parsed) or written to the solver (before or late), second round with its own MaxTime line / none / solver written again / the kept solver value against another line), each solved by '
                 'TLC and emitted; every one is replayed at block level with its integer values, a seeded sample again '
                 'with random float values and through the model API; distinct = distinct (history, api, dress, '
                 'float seed); non-trivial = horizon >= 1, or an initial condition, or a rejected input form')
